@@ -6,6 +6,10 @@
 //! The result and the scratch space are windows inside 0xA5-filled buffers (scratch window = exactly the operation's own
 //! `*_tmp_bytes` query); `broken:<off>` = first modified byte relative to the END of the window (≥ 0) or its start (< 0).
 //! Operands `a`, `b` are owned allocations of ring degree `na` (reads past them are visible to AddressSanitizer only).
+//!
+//!   id prim op=<bbc|bbc1x2|bbc2x2> ell=E res=R x=X y=Y
+//!        → the safe primitive-trait methods `ntt_mul_bbc`, `ntt_mul_bbc_1col_x2`, `ntt_mul_bbc_2cols_x2` of NTT120Avx on a
+//!          framed result of R u64 and owned operands of X / Y u32; same answer format (scratch unused)
 use std::io::{BufRead, Write};
 
 use poulpy_cpu_avx::{FFT64Avx, NTT120Avx};
@@ -19,6 +23,8 @@ use poulpy_hal::{
     },
     layouts::{Backend, Module, ScalarZnx, Scratch, VecZnx, VecZnxBig, VecZnxDft, ZnxViewMut},
 };
+
+use poulpy_cpu_ref::reference::ntt120::{mat_vec::BbcMeta, primes::Primes30, NttMulBbc, NttMulBbc1ColX2, NttMulBbc2ColsX2};
 
 use crate::cmd_ser::{kv, panic_class};
 
@@ -189,6 +195,23 @@ where
     format!("ok res={} scratch={}", rframe.verdict(), sframe.verdict())
 }
 
+fn prim(op: &str, ell: usize, r: usize, x: usize, y: usize) -> String {
+    let meta = BbcMeta::<Primes30>::new();
+    let xs: Vec<u32> = (0..x as u32).map(|k| k.wrapping_mul(2654435761) >> 3).collect();
+    let ys: Vec<u32> = (0..y as u32).map(|k| k.wrapping_mul(40503) >> 2).collect();
+    let mut rframe = Framed::new(8 * r);
+    {
+        let w: &mut [u64] = poulpy_hal::cast_mut::<u8, u64>(rframe.win());
+        match op {
+            "bbc" => <NTT120Avx as NttMulBbc>::ntt_mul_bbc(&meta, ell, w, &xs, &ys),
+            "bbc1x2" => <NTT120Avx as NttMulBbc1ColX2>::ntt_mul_bbc_1col_x2(&meta, ell, w, &xs, &ys),
+            "bbc2x2" => <NTT120Avx as NttMulBbc2ColsX2>::ntt_mul_bbc_2cols_x2(&meta, ell, w, &xs, &ys),
+            _ => return "bad-op".into(),
+        }
+    }
+    format!("ok res={} scratch=intact", rframe.verdict())
+}
+
 pub fn run(_args: &[String]) {
     std::panic::set_hook(Box::new(|_| {}));
     let stdin = std::io::stdin();
@@ -205,6 +228,13 @@ pub fn run(_args: &[String]) {
         let be = kv(&t, "be").unwrap_or("fft64avx").to_string();
         let op = kv(&t, "op").unwrap_or("").to_string();
         let (nm, nr, na, cols, size, extra) = (g("nm", 8), g("nr", 8), g("na", 8), g("cols", 1), g("size", 1), g("extra", 0));
+        if t[1] == "prim" {
+            let (ell, rr, x, y) = (g("ell", 1), g("res", 8), g("x", 16), g("y", 16));
+            let r = std::panic::catch_unwind(|| prim(&op, ell, rr, x, y));
+            let ans = r.unwrap_or_else(|e| format!("panic:{}", panic_class(&e)));
+            writeln!(out, "{id} {ans}").unwrap();
+            continue;
+        }
         let r = std::panic::catch_unwind(|| match be.as_str() {
             "fft64ref" => mism::<FFT64Ref>(&op, nm, nr, na, cols, size, extra),
             "ntt120ref" => mism::<NTT120Ref>(&op, nm, nr, na, cols, size, extra),
